@@ -87,3 +87,13 @@ def batches(jobs, n):
     for i, j in enumerate(jobs):
         bs[i % n].extend(j.lines() if hasattr(j, "lines") else j)
     return bs
+
+
+class CallJob:
+    """a chunk of call lines (NUM/ENC/...) for the native harness; validated by Trace_Calls"""
+    def __init__(self, id, lines, n=None):
+        self.id = id; self._lines = list(lines); self.cmds = ["calls"]; self.n = n or len(self._lines)
+    def lines(self):
+        return self._lines
+    def open_event(self):
+        return {"id": self.id, "n": self.n, "first": self._lines[0] if self._lines else ""}
